@@ -109,6 +109,14 @@ def materialise(case, d):
         if f.get("mtime"):
             os.utime(p, (f["mtime"], f["mtime"]))
         orig[f["name"]] = data
+    if case.get("_join"):
+        joined = b""
+        for f in case["files"]:
+            joined += orig[f["name"]] + bytes(f.get("pad", 0))
+            os.unlink(os.path.join(d, f["name"]))
+        with open(os.path.join(d, "joined.xz"), "wb") as fh:
+            fh.write(joined)
+        orig["joined.xz"] = joined
     for l in case.get("links", []):
         if l["kind"] == "sym":
             os.symlink(l["target"], os.path.join(d, l["name"]))
@@ -283,7 +291,14 @@ def replay(r):
         log("build failed")
         return 2
     case = r["case"]
-    judge = getattr(xz_checks, r["judge"])
+    if r["judge"] == "judge_list":
+        import xz_list
+        judge = xz_list.judge_list
+    elif r["judge"] == "judge_c19":
+        import xz_c19
+        judge = xz_c19.judge_c19
+    else:
+        judge = getattr(xz_checks, r["judge"])
     res = execute(case)
     viol, _, _ = judge(case, res)
     if viol and viol["cls"] == r["violation"]["class"]:
